@@ -117,6 +117,11 @@ type Plan struct {
 	Announce   string
 	// API: the peer-state API family (apiplan.go) laid over the stop state.
 	API *APIPlan `json:",omitempty"`
+	// Names: permanent peers given as host names (names.go), a dimension of
+	// every non-fixed scenario.
+	Names *NamePlan `json:",omitempty"`
+	// Rej: what the peers answer to a rebroadcast while Stop runs (rebroad.go).
+	Rej *RejPlan `json:",omitempty"`
 }
 
 func (p Plan) Point() string {
@@ -396,6 +401,9 @@ func PlanFromSeed(seed int64, k int) Plan {
 	if has(CRescanErr) && !has(CRescanWt) {
 		p.Inflight = append(p.Inflight, CRescanWt, CRescanUpd)
 	}
+	// Host names among the permanent peers: drawn from a generator of their
+	// own, the rest of the plan does not depend on them.
+	p.Names = namesFromSeed(seed, k)
 	return p
 }
 
